@@ -5,6 +5,7 @@ import (
 	"go/ast"
 	"go/token"
 	"go/types"
+	"os"
 	"strings"
 )
 
@@ -321,8 +322,118 @@ func (g *FuncGen) evRepoCall(c *ast.CallExpr, fi *FuncInfo, st *State) []Val {
 		if r, ok := g.tryInline(fi, recv, args, st); ok {
 			return r
 		}
+		if r, ok := g.inlineBody(fi, recv, args, st); ok {
+			return r
+		}
 	}
 	return g.applyContract(c.Pos(), fi, recv, args, st)
+}
+
+// inlineBody: a small repository function without a contract (typically a helper extracted from a function under
+// contract) is executed in place: its statements run on the caller's state with the callee's parameters bound to the
+// arguments, its return states are merged. Obligations raised inside are obligations of the caller. Not inlined:
+// recursion, closures, bodies of more than inlineMaxStmts statements, nesting deeper than inlineMaxDepth; anything
+// the executor cannot lower makes the attempt fall back to the havoc model, leaving no trace.
+const inlineMaxStmts = 30
+const inlineMaxDepth = 3
+
+func (g *FuncGen) inlineBody(fi *FuncInfo, recv *Val, args []Val, st *State) (res []Val, ok bool) {
+	if fi.Body == nil || fi == g.F || len(g.inlineStack) >= inlineMaxDepth || os.Getenv("VF_NOINLINE") != "" {
+		return nil, false
+	}
+	for _, f := range g.inlineStack {
+		if f == fi {
+			return nil, false
+		}
+	}
+	nst, bad := 0, false
+	ast.Inspect(fi.Body, func(n ast.Node) bool {
+		switch n.(type) {
+		case ast.Stmt:
+			nst++
+		case *ast.FuncLit:
+			bad = true
+		}
+		return true
+	})
+	if bad || nst > inlineMaxStmts || fi.Sig.Variadic() {
+		return nil, false
+	}
+	// snapshot for rollback
+	nTrace, nObls, nNotes, nFresh := len(g.trace), len(g.obls), len(g.notes), g.nfresh
+	occ := map[string]int{}
+	for k, v := range g.occ {
+		occ[k] = v
+	}
+	saveInfo, saveRes, saveRet, saveOrd := g.info, g.resVals, g.returns, g.loopOrd
+	work := st.clone()
+	work.vars = map[types.Object]Val{}
+	g.inlineStack = append(g.inlineStack, fi)
+	restore := func() {
+		g.info, g.resVals, g.returns, g.loopOrd = saveInfo, saveRes, saveRet, saveOrd
+		g.inlineStack = g.inlineStack[:len(g.inlineStack)-1]
+	}
+	defer func() {
+		if r := recover(); r != nil {
+			restore()
+			if _, isUnbound := r.(unboundErr); !isUnbound {
+				panic(r)
+			}
+			g.trace, g.obls, g.notes, g.nfresh, g.occ = g.trace[:nTrace], g.obls[:nObls], g.notes[:nNotes], nFresh, occ
+			res, ok = nil, false
+		}
+	}()
+	g.info = fi.Pkg.TypesInfo
+	g.resVals, g.returns = nil, nil
+	if recv != nil && fi.Recv != nil && len(fi.Recv.Names) > 0 {
+		if o := g.info.Defs[fi.Recv.Names[0]]; o != nil {
+			work.vars[o] = *recv
+		}
+	}
+	i := 0
+	for _, f := range fi.Type.Params.List {
+		for _, nm := range f.Names {
+			if o := g.info.Defs[nm]; o != nil && i < len(args) {
+				work.vars[o] = Val{coerce(args[i], o.Type()).T, o.Type(), sortOf(o.Type())}
+			}
+			i++
+		}
+		if len(f.Names) == 0 {
+			i++
+		}
+	}
+	rs := fi.Sig.Results()
+	for k := 0; k < rs.Len(); k++ {
+		rv := rs.At(k)
+		var o types.Object = rv
+		if rv.Name() == "" || rv.Name() == "_" {
+			o = types.NewVar(token.NoPos, fi.Pkg.Types, fmt.Sprintf("$inl%d_res%d", len(g.inlineStack), k), rv.Type())
+		}
+		g.resVals = append(g.resVals, o)
+		srt := sortOf(rv.Type())
+		work.vars[o] = Val{zeroOf(srt), rv.Type(), srt}
+	}
+	fl := g.execBlock(fi.Body.List, work)
+	if fl.next != nil {
+		g.returns = append(g.returns, fl.next)
+	}
+	final := g.merge(g.returns)
+	resObjs := g.resVals
+	restore()
+	g.notes = append(g.notes, fmt.Sprintf("call to %s (no contract) inlined into %s", fi.Key, g.F.Key))
+	if final == nil {
+		// the callee never returns (os.Exit / panic on every path)
+		g.assume(st, "false")
+		for k := 0; k < rs.Len(); k++ {
+			res = append(res, g.freshVal(st, "inl", rs.At(k).Type()))
+		}
+		return res, true
+	}
+	st.heap, st.pc = final.heap, final.pc
+	for _, o := range resObjs {
+		res = append(res, final.vars[o])
+	}
+	return res, true
 }
 
 // tryInline: functions whose body is a single return of a simple expression are evaluated in place.
@@ -432,6 +543,14 @@ func (g *FuncGen) applyContract(pos token.Pos, fi *FuncInfo, recv *Val, args []V
 			names[n] = Val{args[i].T, fi.Sig.Params().At(i).Type(), sortOf(fi.Sig.Params().At(i).Type())}
 		}
 	}
+	// parameters renamed since the lock was taken: the contract may still use the recorded names
+	for oldN, newN := range g.P.Renames[fi.Key] {
+		if v, ok := names[newN]; ok {
+			if _, taken := names[oldN]; !taken {
+				names[oldN] = v
+			}
+		}
+	}
 	calleeShort := fi.Short
 	if fi.Spec != nil {
 		for i, rq := range fi.Spec.Requires {
@@ -483,6 +602,15 @@ func (g *FuncGen) applyContract(pos token.Pos, fi *FuncInfo, recv *Val, args []V
 		}
 		if fi.Spec == nil {
 			g.notes = append(g.notes, fmt.Sprintf("call to %s has no contract: results unconstrained, written fields havocked", fi.Key))
+		}
+	}
+	// hidden ghost state the callee may touch is lost to the caller whether or not the contract lists it
+	// (it is never checked by a frame obligation)
+	if fi.Spec != nil && (fi.Spec.HasMods || fi.Spec.Pure) {
+		for k := range fi.Writes {
+			if isHiddenGhost(k) {
+				ws.fields[k] = true
+			}
 		}
 	}
 	if !(fi.Spec != nil && fi.Spec.Pure) {
@@ -546,6 +674,10 @@ func (g *FuncGen) evFuncValueCall(c *ast.CallExpr, st *State) []Val {
 	for _, a := range c.Args {
 		g.ev(a, st)
 	}
+	// ghost call counter of the function value
+	fv := g.ev(c.Fun, st)
+	calls := g.ghostGet(st, "$calls")
+	g.ghostSet(st, "$calls", fmt.Sprintf("(store %s %s (+ (select %s %s) 1))", calls, fv.T, calls, fv.T))
 	if n, ok := types.Unalias(g.typeOf(c.Fun)).(*types.Named); ok && n.Obj().Pkg() != nil {
 		if ps := g.P.Specs[pkgShort(n.Obj().Pkg())]; ps != nil && ps.PureFuncTypes[n.Obj().Name()] {
 			g.notes = append(g.notes, fmt.Sprintf("functype %s pure: every function value of this type is assumed not to modify the repository heap or the file system", n.Obj().Name()))
